@@ -32,7 +32,8 @@ func init() {
 	// memtable arena makes each open cost tens of milliseconds.  Only the
 	// flush frequency depends on the size (see third_party/badger/verifhook).
 	// Thousands of short-lived databases: trade memory for fewer collections.
-	debug.SetGCPercent(800)
+	debug.SetGCPercent(200)
+	debug.SetMemoryLimit(6 << 30)
 	if os.Getenv("VERIF_BADGER_DEFAULT_MEMTABLE") == "" {
 		verifhook.MemTableSize.Store(8 << 20)
 	}
